@@ -63,10 +63,10 @@ def histories(tier):
             if valid(["CT", "I1"] + list(t)):
                 out.append(["CT", "I1"] + list(t))
         # two fully deleted row-sets, compacted away, then reopened and written again (row-set ids are re-issued)
-        churn = ["CT", "I1", "DA", "I2", "DA"]
+        churn = ["CT", "I1", "I2", "D", "DA"]        # (two delete vectors per row-set)
         out += [churn + t for t in (["C"], ["C", "R"], ["C", "I1"], ["C", "R", "R", "I1"], ["R", "C"], ["DT"])]
     else:
-        prefixes = [[], ["CT", "I1"], ["CT", "I1", "I2", "D"], ["CT", "I1", "I2", "C"], ["CT", "I1", "DA", "I2", "DA"], ["CT", "I1", "DA", "I2", "DA", "C", "R"]]
+        prefixes = [[], ["CT", "I1"], ["CT", "I1", "I2", "D"], ["CT", "I1", "I2", "C"], ["CT", "I1", "I2", "D", "DA"], ["CT", "I1", "I2", "D", "DA", "C", "R"]]
         tails = [list(t) for n in (1, 2, 3) for t in itertools.product(["CT", "I1", "I2", "D", "DA", "DT", "C", "R"], repeat=n)]
     seen = set()
     for p in prefixes:
